@@ -19,7 +19,7 @@ RULE = ("A case is one of: [select] account/password (ASCII incl. '+ @ % & = spa
         "big-endian udpid, the cloud issuing some token for every udpid asked. The reference server verifies sign, "
         "fixed fields, stamp = wall clock, loginAccount, password derivation and sessionId on every request. Distinct "
         "= distinct plan; non-trivial = at least one request reached the reference server."
-        " Later additions: parts 'relogin' (rotating login ids, dropped sessions answered 3106), 'overlapping_calls_one_cancelled'; e2e with silent firmware, concurrent devices, a second run after session expiry and one-off hard cloud faults.")
+        " Later additions: HTTP error statuses carrying Retry-After / Location headers, also as the answer to every attempt; parts 'relogin' (rotating login ids, dropped sessions answered 3106), 'overlapping_calls_one_cancelled'; e2e with silent firmware, concurrent devices, a second run after session expiry and one-off hard cloud faults.")
 ASSUMPTIONS = [
     "NetHome Plus API as implemented by refmodel/cloud.py: sign = SHA-256(path || sorted k=v joined by & || APP_KEY), "
     "password = SHA-256(loginId || SHA-256(password).hex || APP_KEY); form-encoded POST to https://mapp.appsmb.com",
@@ -395,6 +395,17 @@ def gen_select(j, rng, with_faults=False):
                                       ["exc", rng.choice(["RemoteProtocolError", "ReadError", "ConnectError", "WriteError",
                                                           "LocalProtocolError", "ProxyError", "DecodingError",
                                                           "TooManyRedirects", "UnsupportedProtocol", "CloseError"])]]))
+        # a throttling server / a proxy in front of it: error statuses that carry Retry-After (seconds or a date) or a
+        # Location header; sometimes the same answer to every attempt.  An HTTP failure is a cloud error all the same
+        for f in faults:
+            if isinstance(f, list) and f[0] == "http" and rng.random() < 0.5:
+                f.append({"Retry-After": rng.choice(["0", "1", "2", "5", "30", "120", "Wed, 21 Oct 2026 07:28:00 GMT"])}
+                         if f[1] in (429, 503, 500, 502, 599, 418) else
+                         {"Location": "https://mapp.appsmb.com" + rng.choice(["/v1/user/login/id/get", "/", "/v1/iot/secure/getToken"]),
+                          "Retry-After": "1"})
+        if rng.random() < 0.08:
+            k = rng.randint(0, 2)
+            faults = [None] * k + [["http", rng.choice([429, 503]), {"Retry-After": rng.choice(["0", "1", "3"])}]] * rng.choice([4, 12, 40])
         p["faults"] = faults
         p["mode"] = "faults"
     return p
